@@ -752,26 +752,21 @@ Theorem C01_T01g_ieee_midpoint :
   BezierIEEE.coord_ok E a -> BezierIEEE.coord_ok E b ->
   BezierIEEE.coord_ok E (BezierIEEEScalar.avg1 a b) /\
   (Rabs (B2R (BezierIEEEScalar.avg1 a b) - (B2R a + B2R b) / 2) <= BezierIEEE.uE E)%R.
-Proof.
-  intros E a b HE [Fa Ba] [Fb Bb].
-  destruct (BezierIEEEScalar.avg1_spec E a b HE Fa Fb Ba Bb) as (F & B & U).
-  exact (conj (conj F B) U).
-Qed.
+Proof. exact BezierIEEE.midpoint_ok. Qed.
+Print Assumptions C01_T01g_ieee_midpoint.
 
 Theorem C01_T01g_ieee_contraction :
   forall E D pts, 0 <= E <= 126 -> (0 <= D)%R -> BezierIEEE.Inv E D pts ->
   let D' := (D / 4 + 4 * (INR (Nat.pred (length pts)) * BezierIEEE.uE E))%R in
   BezierIEEE.Inv E D' (fst (BezierTermination.sub32 pts)) /\
   BezierIEEE.Inv E D' (snd (BezierTermination.sub32 pts)).
-Proof. intros E D pts HE. exact (BezierIEEE.Inv_children E HE D pts). Qed.
+Proof. exact BezierIEEE.contraction_ok. Qed.
+Print Assumptions C01_T01g_ieee_contraction.
 
 Theorem C01_T01g_ieee_flat_test :
   forall E D pts, 0 <= E <= 18 -> BezierIEEE.Inv E D pts -> (D <= 5 / 16)%R ->
   Curve.flat_enough pts = true.
-Proof.
-  intros E D pts HE. assert (H126 : 0 <= E <= 126) by lia.
-  exact (BezierIEEE.Inv_flat E H126 D pts (proj2 HE)).
-Qed.
+Proof. exact BezierIEEE.flat_test_ok. Qed.
 Print Assumptions C01_T01g_ieee_flat_test.
 
 (* not vacuous: what the line
